@@ -125,6 +125,8 @@ def _ev_sym(sv, env, leaf):
                 return _STR_METHODS[name](args[0])
             if args[0] is None:
                 raise CannotEval(f"{name} on None")
+        if name in (".startswith", ".endswith", ".isdigit", ".isalpha", ".isascii") and args and isinstance(args[0], (str, bytes)) and not _has_res(*args[1:]):
+            return getattr(args[0], name[1:])(*args[1:])
         if name.endswith(".get") and len(args) >= 2 and isinstance(args[0], dict) and not _has_res(*args[1:2]):
             return args[0].get(args[1], args[2] if len(args) > 2 else None)
         if name == "cast" and len(args) == 2:
